@@ -486,4 +486,25 @@ def rule_d(ctx: Ctx) -> None:
                 'passes self._validate_references(...) unless it returns right after yielding a fatal report.')
 
 
-RULES = [rule_a, rule_b, rule_c, rule_d]
+def rule_e(ctx: Ctx) -> None:
+    """Sibling agreement of the three drivers on an undeclared selected element."""
+    rule = 'C04.e'
+    sig = {}
+    for meth in ('iter_errors', 'iter_decode', 'raw_decoder'):
+        f = ctx.idx.func(f'{SCHEMA}.{meth}')
+        g = cfg_of(ctx, f)
+        dummy = [n for n in g.nodes if n.kind == 'stmt' and isinstance(n.ast, ast.Assign) and text(n.ast.targets[0]) == 'xsd_element'
+                 and text(n.ast.value) == 'self.builders.create_element(elem.tag, self)']
+        ok = len(dummy) == 1
+        if ok:
+            gs = guards(ctx, f, dummy[0])
+            ok = ('xsd_element is None', 'T') in gs and ('nm.XSI_TYPE in elem.attrib', 'T') in gs
+        ctx.ob(rule, f'{meth}: an undeclared element that carries xsi:type is validated against a dummy declaration (same in all drivers)',
+               f.loc(dummy[0].ast) if dummy else f.loc(), ok,
+               '' if ok else 'this driver treats an undeclared element with xsi:type differently from its siblings: the entry points disagree '
+               'on the verdict for such a document', key=f'{meth}|undeclared-xsi-type')
+    ctx.explain('C04.e: the undeclared-element branch (xsi:type -> dummy declaration, otherwise missing-element error) has the same '
+                'path condition in iter_errors, iter_decode and raw_decoder.')
+
+
+RULES = [rule_a, rule_b, rule_c, rule_d, rule_e]
